@@ -61,7 +61,7 @@ func (tenants) Runs(tier string) int64 {
 
 func (tenants) Meta() core.EngineMeta {
 	return core.EngineMeta{
-		Rule:       "N in 2..8 (thorough: up to 64) tenants, each a real goroutine with its own Demuxer on its own reference stream or its own Muxer with its own history, share only what the package shares: the bytes pool, here backed by SimPool through the verif hook (LIFO/FIFO/seeded-pick/never-reuse; buffers poisoned on put and on get). The tenant scheduler releases exactly one goroutine at a time, switching at API-call boundaries and at the pool's before-get / after-get / before-put yield points according to the scenario (round-robin, API-only, switch-after-get, switch-before-put, long runs, seeded). Every returned Packet/DemuxerData is deep-dumped at delivery and re-compared by its owner after each of its later steps and at the end; WriteData payloads likewise; each tenant's result sequence must equal its solo run with a never-reusing private pool; pool bookkeeping must balance. One run in eight is re-executed by the -race build: hand-offs are raw pipe syscalls invisible to the detector, so any conflicting access by two tenants is reported whatever the timing; a report with a go-astits/go-astikit frame is a violation. distinct = (tenant kinds, N, pool policy, scheduler mode, reuse count class, switches-at-pool-sites class); non-trivial = at least one pooled buffer was reused across tenants.",
+		Rule:       "N in 2..8 (thorough: up to 64) tenants, each a real goroutine with its own Demuxer on its own reference stream or its own Muxer with its own history, share only what the package shares: the bytes pool, here backed by SimPool through the verif hook (LIFO/FIFO/seeded-pick/never-reuse; buffers poisoned on put and on get). The tenant scheduler releases exactly one goroutine at a time, switching at API-call boundaries and at the pool's before-get / after-get / before-put yield points according to the scenario (round-robin, API-only, switch-after-get, switch-before-put, long runs, seeded). Every returned Packet/DemuxerData is deep-dumped at delivery and re-compared by its owner after each of its later steps and at the end; WriteData payloads likewise; each tenant's result sequence must equal its solo run with a never-reusing private pool; pool bookkeeping must balance. One run in eight is re-executed by the -race build: hand-offs are raw pipe syscalls invisible to the detector, so any conflicting access by two tenants is reported whatever the timing; a report with a go-astits/go-astikit frame is a violation. distinct = (tenant kinds, N, pool policy, scheduler mode, reuse count class, switches-at-pool-sites class); non-trivial = the scheduler switched between tenants at least once.",
 		Real:       []string{"astits.Demuxer", "astits.Muxer", "everything below them", "Go race detector (second pass)"},
 		Stub:       []string{"SimPool (stub of sync.Pool behind the verif hook)", "tenant scheduler (baton hand-off)", "refts reference multiplexer", "per-tenant readers / writers"},
 		FaultKinds: []string{"switch-at-api", "race-pass"}, // pool-related kinds are reach probes: whether and where the library uses its pool is its own business
@@ -502,7 +502,7 @@ func execTenants(sc *TenantScenario, out *core.Outcome) {
 	if o := tr.pool.Outstanding(); o != 0 {
 		out.Violate("C16", "pool-discipline", "unbalanced", "%d pooled buffer(s) were taken and never returned (gets %d, puts %d)", o, tr.pool.Gets, tr.pool.Puts)
 	}
-	if tr.pool.Reuses > 0 {
+	if n >= 2 && tr.switches[sched.SiteAPI]+tr.switches[sched.SiteAfterGet]+tr.switches[sched.SiteBeforePut]+tr.switches[sched.SiteBeforeGet] > 0 {
 		sw := tr.switches[sched.SiteAfterGet] + tr.switches[sched.SiteBeforePut] + tr.switches[sched.SiteBeforeGet]
 		out.FP(fmt.Sprintf("%s/%s/%s/r%s/s%s", kinds, sc.Pool.Policy, sc.Sched.Mode, bucket(tr.pool.Reuses), bucket(sw)))
 	}
